@@ -19,7 +19,7 @@ EXPLANATION = (
 NOT_DECIDED = ["np.interp arithmetic and its handling of Quantity arguments (library)"]
 ASSUMPTIONS = ["np.interp is piecewise-linear interpolation, linear in fp, with left/right used only outside the table", "the table covers 0.55 micron (property precondition)"]
 TRUSTED = ["python ast", "sedlint E4/E5"]
-MIN = {'ALG-9': 6, 'AGREE-1': 5}
+MIN = {'ALG-9': 6, 'AGREE-1': 5, 'EFF-4': 1}
 TECHNIQUE = 'static analysis: AST value numbering of get_av to a normal form (uninterpreted linear interp atom), substitution identities; writer/reader key agreement'
 
 VOCAB = {'xw', 'chi', 'qq', 'c'}
@@ -39,8 +39,15 @@ def run(ctx):
     ci = repo.cls('extinction.extinction', 'Extinction')
     g = ctx.fn(repo.func('extinction.extinction', 'Extinction.get_av'))
     U = sym('unit:micron')
+    init = repo.find_member(ci, '__init__')
+
     def mk():
-        return Obj(ci, {'_wav': symarr('xw', (T,), unit=U), '_chi': symarr('chi', (T,), unit=sym('unit:cm').pow(2) / sym('unit:g'))})
+        o = Obj(ci)
+        if init is not None:
+            Interp(repo).call(init[1], [], selfv=o)          # whatever else the constructor sets (caches, ...)
+        o.attrs['_wav'] = symarr('xw', (T,), unit=U)
+        o.attrs['_chi'] = symarr('chi', (T,), unit=sym('unit:cm').pow(2) / sym('unit:g'))
+        return o
     I = Interp(repo)
     out = I.call(g, [symarr('qq', (Q,), unit=sym('unit:cm'))], selfv=mk())
     xw, chi, q = sym('xw', T), sym('chi', T), sym('qq', Q)
@@ -72,6 +79,39 @@ def run(ctx):
     I3 = Interp(repo)
     o3 = I3.call(g, [symarr('qq', (Q,), unit=sym('unit:m'))], selfv=mk())
     compare(ctx, 'ALG-9', 'query in another length unit', loc(g), o3, ref, (Q,), vocab=VOCAB, fns=FNS, findings=I3.findings, detail_ok='same term for a query given in metres')
+
+    # ---- EFF-4: get_av depends on the current table only: anything it remembers on the object is invalidated by both setters
+    from ..effects import Effects
+    E = Effects(repo)
+    summ = E.summary(g)
+    remembered = set()
+    todo, seen_q = [g], set()
+    while todo:
+        f_ = todo.pop()
+        if f_.qual in seen_q:
+            continue
+        seen_q.add(f_.qual)
+        sm = E.summary(f_)
+        for node, cl, txt in sm.stores:
+            if cl.startswith('param:' + f_.params[0]) and isinstance(node, ast.Assign):
+                for t_ in node.targets:
+                    if isinstance(t_, ast.Attribute) and isinstance(t_.value, ast.Name) and t_.value.id == f_.params[0]:
+                        remembered.add(t_.attr)
+        for callee, _ in sm.calls:
+            if callee.cls is ci:
+                todo.append(callee)
+    if not remembered:
+        ctx.ok('EFF-4', 'get_av keeps no state', loc(g), 'get_av and its helpers store nothing on the object: the result depends on the current wav/chi only')
+    else:
+        for attr in sorted(remembered):
+            missing = []
+            for sname in ('wav', 'chi'):
+                st_ = repo.find_setter(ci, sname)
+                resets = st_ is not None and any(isinstance(t_, ast.Attribute) and t_.attr == attr for t_, v_, n_ in stores(st_.node))
+                if not resets:
+                    missing.append(sname)
+            ctx.expect(not missing, 'EFF-4', 'cached %s is invalidated when the table changes' % attr, loc(g), 'both setters reset self.%s' % attr,
+                       'get_av remembers self.%s but the %s setter does not reset it: after the table is changed get_av keeps using the old normalisation' % (attr, '/'.join(missing)), 'stale-cache')
 
     # ---- AGREE-1
     pickle_state_agreement(ctx, ci)
